@@ -151,6 +151,56 @@ Proof.
     right. split; [exact Hz|reflexivity].
 Qed.
 
+(* wave 13: HEAD's guard is `distance > 0`.  EVERY non-zero displacement, however small, issues exactly one go_to to the new
+   position (duration x velocity = distance) and advances the reported position; a zero displacement issues none and changes
+   nothing. *)
+Lemma h_move_nonzero sq dx dy dz v s :
+  sqrt_spec sq -> hfly s = true -> 0 < dflt v (dvel s) -> ~ (dx == 0 /\ dy == 0 /\ dz == 0) ->
+  exists s' dur dist,
+    h_move sq dx dy dz v s = (s', None) /\
+    hlog s' = HGoto (hnow s) (hx s + dx) (hy s + dy) (hz s + dz) 0 dur :: hlog s /\
+    0 < dist /\ dist * dist == dx * dx + dy * dy + dz * dz /\ dur * dflt v (dvel s) == dist /\
+    hx s' = hx s + dx /\ hy s' = hy s + dy /\ hz s' = hz s + dz.
+Proof.
+  intros Hsq Hf Hv Hnz. unfold h_move, h_goto. rewrite Hf. cbn [negb].
+  set (r := (hx s + dx - hx s) * (hx s + dx - hx s) + (hy s + dy - hy s) * (hy s + dy - hy s)
+            + (hz s + dz - hz s) * (hz s + dz - hz s)).
+  assert (Hr : r == dx * dx + dy * dy + dz * dz) by (unfold r; ring).
+  assert (Hr0 : 0 <= r) by (rewrite Hr; apply sumsq_nonneg).
+  destruct (Hsq r Hr0) as [Hd Hd0].
+  assert (Hpos : 0 < sq r).
+  { destruct (Qlt_le_dec 0 (sq r)) as [H|H]; [exact H|]. exfalso. assert (Hz : sq r == 0) by lra.
+    apply Hnz. apply sumsq_zero. rewrite <- Hr, <- Hd, Hz. ring. }
+  assert (Hb : Qltb 0 (sq r) = true) by (apply Qltb_true; exact Hpos). rewrite Hb.
+  assert (Hve : Qeq_bool (dflt v (dvel s)) 0 = false) by (apply Qeq_bool_false; lra). rewrite Hve.
+  assert (Hdur : 0 <= sq r / dflt v (dvel s)) by (apply Qle_shift_div_l; lra).
+  unfold hsleep. assert (Hs : Qltb (sq r / dflt v (dvel s)) 0 = false) by (apply Qltb_false; exact Hdur). rewrite Hs.
+  do 3 eexists. split; [reflexivity|]. cbn.
+  split; [reflexivity|]. split; [exact Hpos|]. split; [rewrite Hd; exact Hr|]. split; [field; lra|].
+  repeat split; reflexivity.
+Qed.
+
+Lemma h_move_zero sq dx dy dz v s :
+  sqrt_spec sq -> hfly s = true -> dx == 0 -> dy == 0 -> dz == 0 -> h_move sq dx dy dz v s = (s, None).
+Proof.
+  intros Hsq Hf Hx Hy Hz. unfold h_move, h_goto. rewrite Hf. cbn [negb].
+  set (r := (hx s + dx - hx s) * (hx s + dx - hx s) + (hy s + dy - hy s) * (hy s + dy - hy s)
+            + (hz s + dz - hz s) * (hz s + dz - hz s)).
+  assert (Hr : r == 0) by (unfold r; rewrite Hx, Hy, Hz; ring).
+  assert (Hr0 : 0 <= r) by lra.
+  destruct (Hsq r Hr0) as [Hd Hd0].
+  assert (Hz0 : sq r == 0) by nra.
+  assert (Hb : Qltb 0 (sq r) = false) by (apply Qltb_false; lra). rewrite Hb. reflexivity.
+Qed.
+
+(* a threshold variant (distance > 1 mm) drops a 0.8 mm step: no go_to, position not advanced *)
+Lemma goto_threshold_refuted :
+  exists s, hfly s = true /\
+    h_goto_thr (1 # 1000) qsqrt_exact (hx s) (hy s) (hz s + (8 # 10000)) None s = (s, None).
+Proof.
+  exists (mkH 5 true 0 0 (1 # 2) (1 # 2) (1 # 2) 0 5 [] true). split; [reflexivity|]. vm_compute. reflexivity.
+Qed.
+
 Definition rel_disp (o : hop) : option (Q * Q * Q) :=
   match o with
   | HLeft d _ => Some (0, d, 0) | HRight d _ => Some (0, - d, 0)
